@@ -746,10 +746,15 @@ pub fn select(world: &World, opts: &Opts) -> Selection {
             if opts.globs.is_none() && !default_glob(&p) {
                 continue;
             }
-            if ignored_by_styluaignore(world, &world.cwd, &p, None) {
-                if !ignored_by_styluaignore(world, &world.cwd, &p, Some(&kf8_dirs(world, &p))) {
-                    sel.kf8_candidates.insert(p);
-                }
+            // KF8 cuts both ways: the narrow lookup can miss a rule that excludes the path, and it
+            // can miss a negation (in a directory between the path and the working directory) that
+            // re-includes it
+            let full = ignored_by_styluaignore(world, &world.cwd, &p, None);
+            let narrow = ignored_by_styluaignore(world, &world.cwd, &p, Some(&kf8_dirs(world, &p)));
+            if full != narrow {
+                sel.kf8_candidates.insert(p.clone());
+            }
+            if full {
                 continue;
             }
             sel.selected.insert(p);
